@@ -253,6 +253,7 @@ def gen_for(prop):
         elif prop in ("C02", "C05"):
             cs += stories(r, 11 * k)
             cs += [straggler_case(r.fork()) for _ in range(30 * k)]
+            cs += [straggler_crash_case(r.fork()) for _ in range(24 * k)]
             cs += stories(r, 22 * k, second=True)
             cs += crash_sweep(r, (22 if T else 4), 1 if T else 2)
             cs += fault_sweep(r, 11 if T else 3)
